@@ -80,6 +80,21 @@ PROPS = {
             "X: the Ed25519/Ed448 `x` (cut out of a PEM string by offset); verification under an independent implementation; PEM/DER round trips",
         ],
     },
+    "C16": {
+        "units": ["x509", "tacd"],
+        "design_ref": "DESIGN.md section 5 C16",
+        "technique": "Verus function contracts over a ghost view of the OpenSSL certificate builder; the ALPN callback's contract is a precondition of its registration",
+        "text": "Deductive proof that the certificate tacd serves is X.509 v3, self-issued and self-signed by the generated key, valid from now for "
+                "7 days, with basicConstraints, exactly one subjectAltName dNSName (the given domain) and the acmeIdentifier extension taken from "
+                "name=value text with exactly one '=' (anything else is an error), nothing else; and that the ALPN callback answers acme-tls/1 "
+                "when and only when the client offers it, with a fatal alert otherwise.",
+        "assumptions": [
+            "T: OpenSSL encodes what the builder calls describe (extension text `critical,DER:..` as written); select_next_proto as documented; the TLS stack",
+            "T: str::split semantics as stated in prelude/vmap.rs",
+            "X: the handshake as a client sees it; listeners and input sources (tacd main.rs: domain is passed through to_idna before from_acme_ext - not under contract); "
+            "the digest text inside the extension value (computed by acmed, C05)",
+        ],
+    },
     "C17": {
         "units": ["tacd"],
         "design_ref": "DESIGN.md section 5 C17",
